@@ -50,6 +50,8 @@ var c19Menu = []c19Meta{
 	{"P[]", []byte(`{"perm_channels":[]}`)},
 	{"P[icq-c1]", []byte(`{"perm_channels":[` + c19Entry(c19Port2+"/channel-1") + `]}`)},
 	{"P[c1,icq-c1]", []byte(`{"perm_channels":[` + c19Entry("channel-1") + `,` + c19Entry(c19Port2+"/channel-1") + `]}`)},
+	// a documented list of nearly the maximal accepted length (insignificant white space before the closing brace)
+	{"P[c1]-padded-to-5000-bytes", append(append([]byte(`{"perm_channels":[`+c19Entry("channel-1")+`]`), bytes.Repeat([]byte(" "), 5000-len(`{"perm_channels":[`+c19Entry("channel-1")+`]`)-1)...), '}')},
 	{"P[c1,c1]", []byte(`{"perm_channels":[` + c19Entry("channel-1") + `,` + c19Entry("channel-1") + `]}`)},
 	{"N-extra-field", []byte(`{"perm_channels":[` + c19Entry("channel-1") + `],"note":"x"}`)},
 	{"N-extra-field-in-entry", []byte(`{"perm_channels":[{"port_id":"transfer","channel_id":"channel-2","admin":"me"}]}`)},
